@@ -2980,4 +2980,169 @@ example : ∃ out, EntityOrder.order diamondY (diamondY.length + 1) (diamondY.ma
   C18_entity_classes_are_a_permutation diamondY diamondY_acyclic (by decide) _ (List.Perm.refl _)
 
 
+/-! ## every defined type is written, once -/
+
+namespace Order
+
+theorem written_cons (t : DT) (done : List DT) (n : String) : written (t :: done) n = (t.name == n || written done n) := by
+  simp [written]
+
+theorem scan_mono (n : String) : ∀ (ts done : List DT), written done n = true → written (scan done ts) n = true
+  | [], done, h => h
+  | t :: ts, done, h => by
+    simp only [scan]
+    split
+    · exact scan_mono n ts done h
+    · cases t.head with
+      | none => exact scan_mono n ts (t :: done) (by rw [written_cons]; simp [h])
+      | some o =>
+        simp only
+        split
+        · exact scan_mono n ts (t :: done) (by rw [written_cons]; simp [h])
+        · exact scan_mono n ts done h
+
+/-- a scan writes every type whose original is absent or already written when the scan reaches it -/
+theorem scan_writes (t : DT) : ∀ (ts done : List DT), t ∈ ts →
+    (t.head = none ∨ ∃ h, t.head = some h ∧ written done h = true) → written (scan done ts) t.name = true
+  | [], _, hm, _ => by cases hm
+  | u :: ts, done, hm, hh => by
+    have hh' : ∀ done', (∀ n, written done n = true → written done' n = true) →
+        (t.head = none ∨ ∃ h, t.head = some h ∧ written done' h = true) :=
+      fun done' hsub => hh.imp id (fun ⟨h, h1, h2⟩ => ⟨h, h1, hsub h h2⟩)
+    have hsub : ∀ n, written done n = true → written (u :: done) n = true := fun n hn => by rw [written_cons]; simp [hn]
+    rcases List.mem_cons.mp hm with rfl | hm'
+    · -- the scan is at `t` itself
+      simp only [scan]
+      split
+      · rename_i hw; exact scan_mono _ ts done hw
+      · rcases hh with hnone | ⟨h, hsome, hw⟩
+        · rw [hnone]; exact scan_mono _ ts (t :: done) (by rw [written_cons]; simp)
+        · rw [hsome]; simp only [hw, if_true]; exact scan_mono _ ts (t :: done) (by rw [written_cons]; simp)
+    · simp only [scan]
+      split
+      · exact scan_writes t ts done hm' hh
+      · cases u.head with
+        | none => exact scan_writes t ts (u :: done) hm' (hh' _ hsub)
+        | some o =>
+          simp only
+          split
+          · exact scan_writes t ts (u :: done) hm' (hh' _ hsub)
+          · exact scan_writes t ts done hm' hh
+
+theorem scans_write (order : List DT) (rank : String → Nat)
+    (hr : ∀ t ∈ order, ∀ h, t.head = some h → (∃ t' ∈ order, t'.name = h) ∧ rank h < rank t.name) :
+    ∀ (n k : Nat) (done : List DT), (∀ t ∈ order, rank t.name < k → written done t.name = true) →
+      ∀ t ∈ order, rank t.name < k + n → written (scans order n done) t.name = true := by
+  intro n
+  induction n with
+  | zero => intro k done h t ht hlt; exact h t ht (by simpa using hlt)
+  | succ n ih =>
+    intro k done h t ht hlt
+    simp only [scans]
+    refine ih (k + 1) (scan done order) ?_ t ht (by omega)
+    intro u hu hku
+    apply scan_writes u order done hu
+    cases hh : u.head with
+    | none => exact Or.inl rfl
+    | some o =>
+      right
+      obtain ⟨⟨t', ht', hn⟩, hlt'⟩ := hr u hu o hh
+      refine ⟨o, rfl, ?_⟩
+      have := h t' ht' (by rw [hn]; omega)
+      rwa [hn] at this
+
+theorem written_iff (done : List DT) (n : String) : written done n = true ↔ n ∈ done.map (·.name) := by
+  unfold written
+  rw [List.any_eq_true, List.mem_map]
+  constructor
+  · rintro ⟨d, hd, he⟩; exact ⟨d, hd, by simpa using he⟩
+  · rintro ⟨d, hd, he⟩; exact ⟨d, hd, by simpa using he⟩
+
+theorem scan_nodup : ∀ (ts done : List DT), (done.map (·.name)).Nodup → ((scan done ts).map (·.name)).Nodup
+  | [], _, h => h
+  | t :: ts, done, h => by
+    simp only [scan]
+    split
+    · exact scan_nodup ts done h
+    · rename_i hw
+      have hnew : ((t :: done).map (·.name)).Nodup := by
+        simp only [List.map_cons, List.nodup_cons]
+        exact ⟨fun hm => hw ((written_iff done t.name).mpr hm), h⟩
+      cases t.head with
+      | none => exact scan_nodup ts (t :: done) hnew
+      | some o =>
+        simp only
+        split
+        · exact scan_nodup ts (t :: done) hnew
+        · exact scan_nodup ts done h
+
+theorem scans_nodup (order : List DT) : ∀ (n : Nat) (done : List DT), (done.map (·.name)).Nodup →
+    ((scans order n done).map (·.name)).Nodup
+  | 0, _, h => h
+  | n + 1, done, h => scans_nodup order n _ (scan_nodup order done h)
+
+theorem scan_subset (x : DT) : ∀ (ts done : List DT), x ∈ scan done ts → x ∈ done ∨ x ∈ ts
+  | [], _, h => Or.inl h
+  | t :: ts, done, h => by
+    simp only [scan] at h
+    split at h
+    · exact (scan_subset x ts done h).imp id (List.mem_cons_of_mem _)
+    · cases hh : t.head with
+      | none =>
+        rw [hh] at h
+        rcases scan_subset x ts (t :: done) h with h1 | h1
+        · rcases List.mem_cons.mp h1 with rfl | h1
+          · exact Or.inr List.mem_cons_self
+          · exact Or.inl h1
+        · exact Or.inr (List.mem_cons_of_mem _ h1)
+      | some o =>
+        rw [hh] at h
+        simp only at h
+        split at h
+        · rcases scan_subset x ts (t :: done) h with h1 | h1
+          · rcases List.mem_cons.mp h1 with rfl | h1
+            · exact Or.inr List.mem_cons_self
+            · exact Or.inl h1
+          · exact Or.inr (List.mem_cons_of_mem _ h1)
+        · exact (scan_subset x ts done h).imp id (List.mem_cons_of_mem _)
+
+theorem scans_subset (order : List DT) (x : DT) : ∀ (n : Nat) (done : List DT), x ∈ scans order n done → x ∈ done ∨ x ∈ order
+  | 0, _, h => Or.inl h
+  | n + 1, done, h => by
+    rcases scans_subset order x n _ h with h1 | h1
+    · exact scan_subset x order done h1
+    · exact Or.inr h1
+
+end Order
+
+/-- **Every defined type is written**: for every set of defined types in which each renamed type is one of them and the
+rename chains have no cycle (a rank function bounded by the number of types), and for every symbol-table order, the
+repeated scans of `SCOPEPrint` — as many as there are types — write every type.  (`C18_defined_types_written_after_their_original`
+alone would also hold of an empty module.) -/
+theorem C18_defined_types_all_written (order : List Order.DT) (rank : String → Nat)
+    (hr : ∀ t ∈ order, ∀ h, t.head = some h → (∃ t' ∈ order, t'.name = h) ∧ rank h < rank t.name)
+    (hb : ∀ t ∈ order, rank t.name < order.length) :
+    ∀ t ∈ order, Order.written (Order.emitted order) t.name = true := by
+  intro t ht
+  unfold Order.emitted
+  simp only [typeRescan, if_true]
+  exact Order.scans_write order rank hr order.length 0 [] (fun u _ h0 => by omega) t ht (by simpa using hb t ht)
+
+/-- … and exactly once, and nothing else: the written types carry pairwise different names and each is one of the schema's. -/
+theorem C18_defined_types_written_once (order : List Order.DT) :
+    ((Order.emitted order).map (·.name)).Nodup ∧ ∀ x ∈ Order.emitted order, x ∈ order := by
+  unfold Order.emitted
+  simp only [typeRescan, if_true]
+  refine ⟨Order.scans_nodup order _ [] (by simp), fun x hx => ?_⟩
+  rcases Order.scans_subset order x _ [] hx with h | h
+  · cases h
+  · exact h
+
+/-- the hypotheses are satisfiable: the chain of the seeded C18-b1, most derived first -/
+example : ∀ t ∈ [(⟨"text", some "short_label"⟩ : Order.DT), ⟨"short_label", some "label"⟩, ⟨"label", none⟩],
+    Order.written (Order.emitted [⟨"text", some "short_label"⟩, ⟨"short_label", some "label"⟩, ⟨"label", none⟩]) t.name = true :=
+  C18_defined_types_all_written _ (fun n => if n = "text" then 2 else if n = "short_label" then 1 else 0)
+    (by decide) (by decide)
+
+
 end StepModel.GenPy
